@@ -65,18 +65,19 @@ func vc25_abbreviate(maxLen int) {
 	s := vsym_string(maxLen)
 	n := vsym_int()
 	out := Abbreviate(s, n)
+	// "Abbreviate never exceeds the requested length": whatever s and n are,
+	// the result has at most max(n, 0) runes, or is the (right-trimmed) input
+	// when that already fits in n bytes.
 	t := vtrimRightSpaces(s)
-	rc := vruneCount(t)
-	if rc <= n {
-		// "If s is longer than n runes, the abbreviated string terminates
-		// with ...": a string that fits is returned (right-trimmed) as is.
+	lim := n
+	if lim < 0 {
+		lim = 0
+	}
+	vassert(vruneCount(out) <= lim, "never-exceeds-n-runes")
+	if len(t) <= n {
 		vassert(out == t, "fitting-string-unchanged")
-	} else {
-		lim := n
-		if lim < 0 {
-			lim = 0
-		}
-		vassert(vruneCount(out) <= lim, "never-exceeds-n-runes")
+	} else if n >= 3 && vruneCount(t) > n {
+		vassert(len(out) >= 3 && out[len(out)-3:] == "...", "abbreviated-string-ends-with-dots")
 	}
 }
 
@@ -128,7 +129,6 @@ func vc25_trimjson(n int) {
 	has := false
 	for i := 0; i < len(s); i++ {
 		has = vor(has, !visJSONSpace(s[i]))
-		vassume(s[i] != 0xFF) // see vc25_marshalindent for the 0xFF finding
 	}
 	vassume(has) // IndentJSON is documented to panic on invalid JSON (all blank is invalid)
 	out := string(trimJSONSpace(native.JSON(s)))
